@@ -160,7 +160,9 @@ def run(prog, rep, tier):
             rep.ob('R14.3', False, key, 'anchors: decode calls=%d inner reads=%d' % (len(dec), len(inner_reads)), rd.loc())
         else:
             ir = inner_reads[0]
-            # edges taken when the inner read returned Ok(0)
+            from .c13 import ok_payload_locals
+            pay = ok_payload_locals(rd, ir)
+            # edges taken when the inner read returned Ok(0): the tested value is the Ok payload of that call (must-derive, not may-depend)
             zero_edges = []
             for bl in rd.blocks:
                 si = switch_info(prog, rd, bl.idx)
@@ -169,7 +171,7 @@ def run(prog, rep, tier):
                 e = expr_of(rd, si['cond'])
                 if e[0] == 'binop' and e[1] in ('Eq', 'Ne') and ((e[3][0] == 'const' and e[3][1] == 0) or (e[2][0] == 'const' and e[2][1] == 0)):
                     x = e[2] if e[3][0] == 'const' else e[3]
-                    if x[0] == 'place' and ir.idx in origins(rd, [x[1][0]]).calls:
+                    if x[0] == 'place' and (x[1][0] == ir.term.dest[0] or x[1][0] in pay):
                         zero_edges.append((bl.idx, si['true'] if e[1] == 'Eq' else si['false']))
             if not zero_edges:
                 rep.ob('R14.3', False, key, 'no test of the inner read count against 0 found', rd.loc(ir.idx))
@@ -186,7 +188,7 @@ def run(prog, rep, tier):
                         e2 = expr_of(rd, si2['cond'])
                         if e2[0] == 'binop' and e2[1] in ('Gt', 'Eq', 'Ne') and e2[3][0] == 'const' and e2[3][1] == 0 and e2[2][0] == 'place':
                             o2 = origins(rd, [e2[2][1][0]], through_calls=False)
-                            if any(f[-1] == 'uncompressed_read' or 'InData' in str(f) for f in o2.fields) and not o2.calls:
+                            if any(f[-1] == 'uncompressed_read' for f in o2.fields):
                                 fresh_edges.append((bl.idx, si2['true'] if e2[1] == 'Eq' else si2['false']))
                     removed_edges = set(fresh_edges)
                     r = rd.reachable(tgt, removed_blocks=[dec[0].idx], removed_edges=removed_edges)
